@@ -66,26 +66,45 @@ def confirm(src, sid):
 
 
 def run(sid, pids, tier="quick"):
+    """apply the change to a scratch worktree of /repo (never to /repo itself), run the checks against it with their
+    work files / evidence / replays redirected to a scratch directory, remove both afterwards"""
     dst = SEEDED / sid
-    rc, o = sh("git -C /repo status --porcelain --untracked-files=no")
-    assert o.strip() == "", f"/repo not clean: {o}"
-    rc, o = sh(f"git -C /repo apply {dst}/patch.diff")
+    wt = Path(f"/tmp/seedrun_{sid}")
+    scratch = Path(f"/tmp/seedrun_{sid}_out")
+    if wt.exists():
+        sh(f"git -C /repo worktree remove --force {wt}")
+    shutil.rmtree(scratch, ignore_errors=True)
+    rc, o = sh(f"git -C /repo worktree add -q --detach {wt} HEAD")
     assert rc == 0, o
     res = {}
     try:
+        rc, o = sh(f"git apply {dst}/patch.diff", cwd=wt)
+        assert rc == 0, o
+        scratch.mkdir(parents=True)
         for pid in pids:
-            rc, o = sh(f"./check {pid} --tier {tier}", cwd=VERIF, timeout=7200)
+            rc, o = sh(f"./check {pid} --tier {tier}", cwd=VERIF, timeout=7200,
+                       env={"VERIF_REPO": str(wt), "VERIF_SCRATCH": str(scratch)})
             viol = [l for l in o.splitlines() if l.startswith("VIOLATION")]
             res[pid] = {"exit": rc, "violation_lines": len(viol), "tier": tier,
                         "summary": ([l for l in o.splitlines() if l.startswith(f"[{pid}]")] or [o[-300:]])[-1]}
-            print(sid, pid, "exit", rc, res[pid]["summary"])
+            # keep what the check said about the first violation (which clause failed)
+            why = ""
+            for l in viol[:1]:
+                f = l.split("replay=")[-1].strip()
+                try:
+                    j = json.loads(Path(f).read_text())
+                    why = json.dumps(j.get("fails") or j.get("violated") or j.get("why") or list(j)[:8])[:400]
+                except Exception:  # noqa: BLE001
+                    pass
+            res[pid]["first_violation"] = why
+            print(sid, pid, "exit", rc, res[pid]["summary"], why[:200])
     finally:
-        sh("git -C /repo checkout -- .")
+        sh(f"git -C /repo worktree remove --force {wt}")
+        shutil.rmtree(scratch, ignore_errors=True)
     meta = json.loads((dst / "meta.json").read_text())
     meta.setdefault("results", {}).update(res)
     meta["detected"] = any(v["exit"] == 1 for v in meta["results"].values())
     (dst / "meta.json").write_text(json.dumps(meta, indent=1) + "\n")
-    # restore evidence of the clean tree is the caller's business
     return res
 
 
